@@ -22,7 +22,7 @@ EXPLANATION = (
 NOT_DECIDED = ["linearity and knot-exactness of scipy.interpolate.interp1d (library)"]
 ASSUMPTIONS = ["interp1d(x, y)(q) with default options is the piecewise-linear interpolant, raising outside [x0, xN]", "numpy basic slices are views"]
 TRUSTED = ["python ast", "sedlint E4/E5", "scipy interp1d defaults"]
-MIN = {'CFG-7': 8, 'UNIT-1': 3, 'AXIS': 3, 'PERM-10': 1}
+MIN = {'UNIT-2': 3, 'CFG-7': 8, 'UNIT-1': 3, 'AXIS': 3, 'PERM-10': 1}
 TECHNIQUE = 'static analysis: AST value numbering with alias tracking of in-place stores and unit tags; uninterpreted linear-interpolation atom'
 
 VOCAB = {'q', 'cap', 'flux', 'err', 'names', 'cw', 'wav', 'fw'}
@@ -87,6 +87,20 @@ def guards(I, kind):
     return [a for a in I.assumed if a[4] == 'raise-guard' and kind in a[2]]
 
 
+def roundtrip_findings(ctx, h, fi, inst):
+    """(UNIT-2) the clamp bound must reach the bounds-checked look-up without a unit round trip: table maximum -> request's unit (on assignment into the
+    request) -> table's unit (.to before the look-up) does not return the same floating-point number, so a request beyond the table can land one ulp above
+    the maximum and be refused instead of clamped"""
+    trips = [t for args, kwargs, r, node in h.i1d if isinstance(r, _Interp1d) for t in r.roundtrips]
+    if trips:
+        a_, b_ = trips[0]
+        ctx.violation('UNIT-2', inst, loc(fi, b_[4] or a_[4]), 'the bound %s is stored into the request in unit %s (line %s, converted from %s) and the request is converted back to %s (line %s) before '
+                      'the bounds-checked interpolation: the round trip is not exact in floating point, so a clamped request can exceed the table by one ulp and raise'
+                      % (a_[3], a_[2], a_[4], a_[1], b_[2], b_[4]), 'unit-roundtrip')
+    else:
+        ctx.ok('UNIT-2', inst, loc(fi), 'the clamped request reaches interp1d without a unit round trip of the bound')
+
+
 def unit_findings(ctx, I, fi, inst):
     bad = [f for f in I.findings if f.kind == 'unit-kind']
     ctx.expect(not bad, 'UNIT-1', inst, loc(fi, bad[0].line if bad else None), 'every comparison is between numbers of the same kind',
@@ -114,7 +128,10 @@ def check_cf_interpolate(ctx):
     else:
         for attr, tab in (('_flux', sym('flux', M, A)), ('_error', sym('err', M, A))):
             ref = mk_fn('lininterp', P(qc / U), B(A, cap / U), B(A, tab))
-            compare(ctx, 'CFG-7', 'ConvolvedFluxes.interpolate %s' % attr.lstrip('_'), where_, out.attrs.get(attr), ref, (M, D), vocab=VOCAB, fns=FNS, findings=[f for f in I.findings if f.kind == 'label-clash'],
+            # side conditions: the table minimum is not above its maximum, and (the refusal below the table being a precondition, checked on its own) no request is below the minimum
+            mn = mk_fn('min', B(A, cap))
+            side = alg.Facts().assume_le(mn, mx).assume_le(mn, q)
+            compare(ctx, 'CFG-7', 'ConvolvedFluxes.interpolate %s' % attr.lstrip('_'), where_, out.attrs.get(attr), ref, (M, D), side, vocab=VOCAB, fns=FNS, findings=[f for f in I.findings if f.kind == 'label-clash'],
                     detail_ok='linear interpolant of the %s table at min(request, table maximum), abscissa and query in the table\'s unit' % attr.lstrip('_'))
         compare(ctx, 'CFG-7', 'ConvolvedFluxes.interpolate apertures of the result', where_, out.attrs.get('_apertures'), qc, (D,), vocab=VOCAB, fns=FNS, detail_ok='the (clamped) request')
         compare(ctx, 'CFG-7', 'ConvolvedFluxes.interpolate model names', where_, out.attrs.get('_model_names'), sym('names', M), (M,), vocab=VOCAB, fns=FNS, detail_ok='copied unchanged')
@@ -122,6 +139,7 @@ def check_cf_interpolate(ctx):
     ctx.expect(bool(guards(I, '<')) and any('min()' in g[2] for g in guards(I, '<')), 'CFG-7', 'ConvolvedFluxes.interpolate refuses radii below the table', where_, 'raises when any request < table minimum',
                'no raise guards radii below the smallest aperture', 'too-small')
     unit_findings(ctx, I, fi, 'ConvolvedFluxes.interpolate comparisons')
+    roundtrip_findings(ctx, h, fi, 'ConvolvedFluxes.interpolate clamp bound and look-up in one unit')
     for args, kwargs, r, node in h.i1d:
         ctx.expect(not kwargs, 'AXIS', 'ConvolvedFluxes.interpolate interp1d options', loc(fi, node.lineno), 'scipy defaults: linear, exact at knots, error outside',
                    'non-default options %s change the interpolant or silence out-of-range requests' % sorted(kwargs), 'interp1d-options')
@@ -162,6 +180,7 @@ def run(ctx):
         compare(ctx, 'CFG-7', 'SED.interpolate, request given as %s' % tag, loc(fs), out, ref, (N, D), vocab=VOCAB, fns=FNS, findings=[f for f in I.findings if f.kind == 'label-clash'],
                 detail_ok='linear interpolant at min(request, maximum) with abscissa and query both in AU')
         unit_findings(ctx, I, fs, 'SED.interpolate comparisons, request given as %s' % tag)
+        roundtrip_findings(ctx, h, fs, 'SED.interpolate clamp bound and look-up in one unit (%s)' % tag)
         ctx.expect(any('min()' in g[2] for g in guards(I, '<')), 'CFG-7', 'SED.interpolate refuses radii below the table (%s)' % tag, loc(fs), 'raises when any request < table minimum',
                    'no raise guards radii below the smallest aperture', 'too-small')
         for args, kwargs, r, node in h.i1d:
@@ -277,6 +296,7 @@ def check_variable(ctx):
 CF = 'sedfitter/convolved_fluxes/convolved_fluxes.py'
 SE = 'sedfitter/sed/sed.py'
 MUST_FIRE = [
+    ('D21 reverted: clamped request converted back to the table unit before the bounds-checked look-up', [(CF, "new_apertures = np.clip(c.apertures.to(self.apertures.unit), self.apertures.min(), self.apertures.max())", "new_apertures = c.apertures.to(self.apertures.unit)")]),
     ('variable aperture: short-wavelength side held at the last filter aperture', [(SE, "apertures[np.log10(sed_wav) < log10_ap_interp.x[0]] = 10. ** log10_ap_interp.y[0]", "apertures[np.log10(sed_wav) < log10_ap_interp.x[0]] = 10. ** log10_ap_interp.y[-1]")]),
     ('variable aperture: long-wavelength side not held', [(SE, "        apertures[np.log10(sed_wav) > log10_ap_interp.x[-1]] = 10. ** log10_ap_interp.y[-1]\n", "")]),
     ('variable aperture: first query column instead of the diagonal', [(SE, "return flux_interp(apertures).diagonal()", "return flux_interp(apertures)[:, 0]")]),
@@ -295,7 +315,7 @@ MUST_FIRE = [
     ('repeat reshaped (len, n_models)', [(CF, "c.flux = np.repeat(self.flux, len(c.apertures)).reshape(c.n_models, len(c.apertures))", "c.flux = np.repeat(self.flux, len(c.apertures)).reshape(len(c.apertures), c.n_models)")]),
     ('error_interp from flux', [(CF, "error_interp = interp1d(self.apertures, self.error)", "error_interp = interp1d(self.apertures, self.flux)")]),
     ('view replaced by a copy', [(CF, "c.apertures = apertures[:]", "c.apertures = apertures.copy()")]),
-    ('.to(...) dropped from the query', [(CF, "c.flux = flux_interp(c.apertures.to(self.apertures.unit)) * self.flux.unit", "c.flux = flux_interp(c.apertures) * self.flux.unit")]),
+    ('.to(...) dropped from the query', [(CF, "new_apertures = np.clip(c.apertures.to(self.apertures.unit), self.apertures.min(), self.apertures.max())", "new_apertures = c.apertures")]),
     ('SED.interpolate: bare request against a quantity table (D19 reverted)', [(SE, "        apertures[apertures > sed_apertures.max()] = sed_apertures.max()\n\n        # If any apertures are smaller than the defined min, raise Exception\n        if np.any(apertures < sed_apertures.min()):\n            raise Exception(\"Aperture(s) requested too small\")\n\n        return flux_interp(apertures)",
                                                                                    "        apertures[apertures > self.apertures.max()] = self.apertures.max()\n\n        # If any apertures are smaller than the defined min, raise Exception\n        if np.any(apertures < self.apertures.min()):\n            raise Exception(\"Aperture(s) requested too small\")\n\n        return flux_interp(apertures)")]),
     ('SED.interpolate: table in cm, request in AU', [(SE, "        sed_apertures = self.apertures.to(u.au).value\n        if isinstance(apertures, u.Quantity):", "        sed_apertures = self.apertures.to(u.cm).value\n        if isinstance(apertures, u.Quantity):")]),
@@ -307,6 +327,7 @@ MUST_FIRE = [
                                                "        if np.any(apertures < sed_apertures.min()):\n            raise Exception(\"Aperture(s) requested too small\")\n\n        result = flux_interp(apertures)\n        apertures[apertures > sed_apertures.max()] = sed_apertures.max()\n        return result")]),
 ]
 MUST_SILENT = [
+    ('bounds re-applied after the conversion with minimum/maximum', [(CF, "new_apertures = np.clip(c.apertures.to(self.apertures.unit), self.apertures.min(), self.apertures.max())", "new_apertures = np.maximum(np.minimum(c.apertures.to(self.apertures.unit), self.apertures.max()), self.apertures.min())")]),
     ('variable aperture: log wavelength in a temporary', [(SE, "        apertures = 10. ** log10_ap_interp(np.log10(sed_wav))\n\n        # Extrapolate on either side\n        apertures[np.log10(sed_wav) < log10_ap_interp.x[0]] = 10. ** log10_ap_interp.y[0]\n        apertures[np.log10(sed_wav) > log10_ap_interp.x[-1]] = 10. ** log10_ap_interp.y[-1]",
                                                               "        log_wav = np.log10(sed_wav)\n        apertures = 10. ** log10_ap_interp(log_wav)\n\n        # Extrapolate on either side\n        apertures[log_wav > log10_ap_interp.x[-1]] = 10. ** log10_ap_interp.y[-1]\n        apertures[log_wav < log10_ap_interp.x[0]] = 10. ** log10_ap_interp.y[0]")]),
     ('single-aperture repeat with the request length in a temporary', [(CF, "            c.flux = np.repeat(self.flux, len(c.apertures)).reshape(c.n_models, len(c.apertures))\n            c.error = np.repeat(self.error, len(c.apertures)).reshape(c.n_models, len(c.apertures))",
